@@ -33,7 +33,11 @@ type c41S3 struct {
 func (c *c41S3) jitter() (fail bool) {
 	n := c.ctr.Add(1)
 	x := uint64(n*2654435761) ^ uint64(c.seed)
-	time.Sleep(time.Duration(x%200) * time.Microsecond)
+	d := time.Duration(x%200) * time.Microsecond
+	if c.failEvery > 0 {
+		d *= 4 // wider flush windows in the failure-heavy repetitions
+	}
+	time.Sleep(d)
 	if c.failEvery > 0 {
 		return x%uint64(c.failEvery) == 0
 	}
@@ -93,7 +97,7 @@ func TestVerifC41Stress(t *testing.T) {
 		h.logConfig.CacheEnabled = true
 		h.cache = cache.NewSegmentCache(1200)
 		var wg sync.WaitGroup
-		var produced, fetchedBytes, fetchErrs, hwSeen atomic.Int64
+		var produced, fetchedBytes, fetchErrs, hwSeen, tailReads atomic.Int64
 		for p := 0; p < 8; p++ {
 			prng := rand.New(rand.NewSource(rng.Int63()))
 			wg.Add(1)
@@ -128,6 +132,40 @@ func TestVerifC41Stress(t *testing.T) {
 					}
 				}
 			}(f)
+		}
+		if !h.flushOnAck {
+			// tail followers (buffered mode): fetch right behind the log end, where a read is served from the write
+			// buffer or from the batches of an in-flight (possibly failing) flush
+			for f := 0; f < 3; f++ {
+				wg.Add(1)
+				go func(f int) {
+					defer wg.Done()
+					for i := 0; i < 120; i++ {
+						part := int32(i % 2)
+						lo := plogExec(h, inst, 400+f, i, plogReq{Kind: "listoffsets", Topic: "t", Partition: part, Offset: -1})
+						plog, err := h.getPartitionLog(context.Background(), "t", part)
+						if err != nil {
+							continue
+						}
+						end := plog.BufferedHighWatermark()
+						_ = lo
+						for back := int64(1); back <= 3; back++ {
+							if end-back < 0 {
+								break
+							}
+							res := plogExec(h, inst, 400+f, i, plogReq{Kind: "fetch", Topic: "t", Partition: part, Offset: end - back, MaxBytes: 1 << 20})
+							if res.Err == "" && res.Code == 0 {
+								tailReads.Add(1)
+								var x byte
+								for _, c := range res.Records {
+									x ^= c
+								}
+								_ = x
+							}
+						}
+					}
+				}(f)
+			}
 		}
 		for l := 0; l < 2; l++ {
 			wg.Add(1)
@@ -176,6 +214,7 @@ func TestVerifC41Stress(t *testing.T) {
 		r.Count("fetch_bytes", fetchedBytes.Load())
 		r.Count("fetch_errors", fetchErrs.Load())
 		r.Count("listoffsets_ok", hwSeen.Load())
+		r.Count("tail_reads_in_buffered_mode", tailReads.Load())
 		r.Count("s3_full_segment_downloads(cache fill+prefetch)", prefetchLike)
 		r.Count("s3_range_downloads", s3.ranged.Load())
 		r.Count("s3_segment_uploads", s3.uploads.Load())
@@ -189,4 +228,5 @@ func TestVerifC41Stress(t *testing.T) {
 	r.Floor("s3_full_segment_downloads(cache fill+prefetch)", 20)
 	r.Floor("s3_segment_uploads", 100)
 	r.Floor("fetch_bytes", 10000)
+	r.Floor("tail_reads_in_buffered_mode", 200)
 }
